@@ -400,7 +400,8 @@ def r15_2(ctx):
   # module-level helpers the function hands parts of the except-chain / the
   # fallback result to (`return _make_failed_result(.., compiler_error, ..)`)
   # are read inline
-  fn, _, _ = U.inline_local_calls(mod, mod.func("check_or_generate_pyi"), depth=2)
+  fn, _, _ = U.inline_local_calls(mod, mod.func("check_or_generate_pyi"), depth=2,
+                                  skip=("check_py", "generate_pyi"))
   tries = [n for n in ast.walk(fn) if isinstance(n, ast.Try)
            and any((dotted(c.func) or "").split(".")[-1] in ("check_py", "generate_pyi")
                    for st in n.body for c in calls_in(st))]
@@ -553,6 +554,111 @@ def _first_status_write(stmts, outname):
   return None, 0
 
 
+class _StatusReader:
+  """compile_src_string_to_pyc_string's decoding of the status byte."""
+
+  def __init__(self, mod, fn):
+    self.mod, self.fn = mod, fn
+    # the status: `<buf>[0]`, possibly bound once to a local
+    subs = [n for n in ast.walk(fn) if isinstance(n, ast.Subscript)
+            and isinstance(n.value, ast.Name) and try_fold(n.slice) == 0
+            and isinstance(n.ctx, ast.Load)]
+    bufs = {n.value.id for n in subs}
+    if len(bufs) != 1:
+      raise AnalysisError(f"{COMPILER}: the status byte `<buf>[0]` of "
+                          f"compile_src_string_to_pyc_string was not recognised ({sorted(bufs)})")
+    self.buf = bufs.pop()
+    self.status_names = set()
+    first = None
+    for st in fn.body:
+      hit = any(n in subs for n in ast.walk(st))
+      if hit and first is None:
+        first = st
+      if isinstance(st, ast.Assign) and len(st.targets) == 1 and isinstance(st.targets[0], ast.Name) \
+          and st.value in subs:
+        nm = st.targets[0].id
+        stores = [n for n in ast.walk(fn) if isinstance(n, ast.Name) and n.id == nm
+                  and isinstance(n.ctx, (ast.Store, ast.Del))]
+        if len(stores) != 1:
+          raise AnalysisError(f"{COMPILER}: status local `{nm}` is re-bound")
+        self.status_names.add(nm)
+    if first is None:
+      raise AnalysisError(f"{COMPILER}: the status byte is not read at the top level of "
+                          "compile_src_string_to_pyc_string")
+    self.tail = fn.body[fn.body.index(first):]
+
+  def _is_status(self, e):
+    return (isinstance(e, ast.Name) and e.id in self.status_names) or (
+        isinstance(e, ast.Subscript) and dotted(e.value) == self.buf and try_fold(e.slice) == 0)
+
+  def _val(self, e, v):
+    if self._is_status(e):
+      return v
+    if isinstance(e, (ast.Tuple, ast.List, ast.Set)):
+      return tuple(self._val(x, v) for x in e.elts)
+    c = try_fold(e, mod=self.mod, default=_NOVAL)
+    if c is _NOVAL:
+      raise AnalysisError(f"{COMPILER}: status test operand `{src(e)}` is not a constant")
+    return c
+
+  def _test(self, t, v):
+    if isinstance(t, ast.BoolOp):
+      vals = [self._test(x, v) for x in t.values]
+      return all(vals) if isinstance(t.op, ast.And) else any(vals)
+    if isinstance(t, ast.UnaryOp) and isinstance(t.op, ast.Not):
+      return not self._test(t.operand, v)
+    if isinstance(t, ast.Compare) and len(t.ops) == 1:
+      l, r = self._val(t.left, v), self._val(t.comparators[0], v)
+      op = t.ops[0]
+      if isinstance(op, (ast.Eq, ast.Is)):
+        return l == r
+      if isinstance(op, (ast.NotEq, ast.IsNot)):
+        return l != r
+      if isinstance(op, ast.In):
+        return l in r
+      if isinstance(op, ast.NotIn):
+        return l not in r
+    raise AnalysisError(f"{COMPILER}: status test `{src(t)}` is not understood")
+
+  def _run(self, stmts, v, env):
+    for st in stmts:
+      if isinstance(st, ast.If):
+        r = self._run(st.body if self._test(st.test, v) else st.orelse, v, env)
+        if r is not None:
+          return r
+      elif isinstance(st, ast.Return):
+        e = st.value
+        while isinstance(e, ast.Name) and e.id in env:
+          e = env[e.id]
+        ok = isinstance(e, ast.Subscript) and dotted(e.value) == self.buf \
+            and isinstance(e.slice, ast.Slice) and try_fold(e.slice.lower) == 1 \
+            and e.slice.upper is None and e.slice.step is None
+        return ("ok" if ok else "other-return", st.lineno)
+      elif isinstance(st, ast.Raise):
+        name = (dotted(st.exc.func) or "") if isinstance(st.exc, ast.Call) else (
+            dotted(st.exc) or "") if st.exc is not None else ""
+        return ("error" if name.split(".")[-1] == "CompileError" else "invalid", st.lineno)
+      elif isinstance(st, ast.Assign) and len(st.targets) == 1 and isinstance(st.targets[0], ast.Name):
+        env[st.targets[0].id] = st.value
+      elif isinstance(st, (ast.Expr, ast.Assert, ast.AnnAssign, ast.Pass)):
+        continue
+      else:
+        raise AnalysisError(f"{COMPILER}: statement at line {st.lineno} in the status "
+                            "decoding of compile_src_string_to_pyc_string is not understood")
+    return None
+
+  def action(self, v):
+    """('ok' | 'error' | 'invalid' | 'other-return' | 'falls-through', line)."""
+    r = self._run(self.tail, v, {})
+    return r if r is not None else ("falls-through", self.fn.lineno)
+
+  def values(self, kind):
+    return [v for v in range(0, 8) if self.action(v)[0] == kind]
+
+
+_NOVAL = object()
+
+
 @rule("R15.3", "C15", floor=9)
 def r15_3(ctx):
   """Writer and reader of the compile sub-process agree."""
@@ -578,55 +684,26 @@ def r15_3(ctx):
 
   rmod = get_module(ctx, COMPILER)
   rfn = rmod.func("compile_src_string_to_pyc_string")
-  arms = {}   # action -> (value, line)
-  subject_ok = True
-  for n in ast.walk(rfn):
-    if isinstance(n, ast.If) and isinstance(n.test, ast.Compare) and \
-        len(n.test.ops) == 1 and isinstance(n.test.ops[0], ast.Eq):
-      val = try_fold(n.test.comparators[0])
-      if not isinstance(val, (int, bytes)):
-        continue
-      left = n.test.left
-      # provenance of the subject: <buf>[0] directly or via one local
-      if isinstance(left, ast.Name):
-        defs = [st.value for st in ast.walk(rfn) if isinstance(st, ast.Assign)
-                and any(isinstance(t, ast.Name) and t.id == left.id for t in st.targets)]
-        if len(defs) != 1:
-          continue
-        left = defs[0]
-      if not (isinstance(left, ast.Subscript) and try_fold(left.slice) == 0):
-        continue
-      buf = dotted(left.value)
-      action = None
-      for st in n.body:
-        if isinstance(st, ast.Return) and isinstance(st.value, ast.Subscript) and \
-            dotted(st.value.value) == buf:
-          action = "ok"
-        for r in ast.walk(st):
-          if isinstance(r, ast.Raise) and r.exc is not None and \
-              isinstance(r.exc, ast.Call) and \
-              (dotted(r.exc.func) or "").split(".")[-1] == "CompileError":
-            action = "error"
-      if action:
-        if action in arms:
-          subject_ok = False
-        arms[action] = (val, n.lineno)
-  if set(arms) != {"ok", "error"} or not subject_ok:
-    raise AnalysisError(
-        f"{COMPILER}: the `first_byte == 0 / == 1` branch of "
-        f"compile_src_string_to_pyc_string was not recognised ({arms})")
+  # What the reader does with each status value is *evaluated*: the tail of
+  # the function (from the statement that reads <buf>[0]) is run for concrete
+  # status values, taking the `if` arms whose tests (==, !=, in, not in, and/or/
+  # not over the status and constants) come out true, up to the first return /
+  # raise.  `if s == 0: return .. elif s == 1: raise .. else: raise OSError`,
+  # guard clauses and `match`-free dispatch tables of ifs all read the same.
+  reader = _StatusReader(rmod, rfn)
 
   def as_int(v):
     return v[0] if isinstance(v, bytes) and len(v) == 1 else v
 
   for kind, wv, wl in (("ok", w_ok, l_ok), ("error", w_err, l_err)):
-    rv, rl = arms[kind]
-    ctx.check(len(wv) == 1 and as_int(wv) == as_int(rv), f"status:{kind}",
+    got, rl = reader.action(as_int(wv)) if len(wv) == 1 else ("invalid", 0)
+    accepted = reader.values(kind)
+    ctx.check(len(wv) == 1 and got == kind, f"status:{kind}",
               COMPILE_BC, wl,
-              f"writer emits {wv!r} for '{kind}' but the reader's '{kind}' arm "
-              f"tests {rv!r}: every compilation ends in OSError('invalid result') "
-              "or in the wrong arm",
-              {"writer": repr(wv), "reader": repr(rv), "reader_line": rl})
+              f"writer emits {wv!r} for '{kind}' but the reader treats that status as "
+              f"'{got}' (its '{kind}' path is taken for {accepted}): every compilation "
+              "ends in OSError('invalid result') or in the wrong arm",
+              {"writer": repr(wv), "reader": repr(accepted), "reader_line": rl})
   ctx.check(w_ok != w_err, "status:distinct", COMPILE_BC, l_ok,
             "success and failure write the same status byte",
             {"ok": repr(w_ok), "error": repr(w_err)})
@@ -694,12 +771,28 @@ def r15_3(ctx):
   # CompileError.__init__ uses group 1/2/3 as error/filename/line
   init = rmod.func("CompileError.__init__")
   uses = {}
+  # locals unpacked from `<match>.groups()`: name -> group number
+  unpacked = {}
+  for st in ast.walk(init):
+    if isinstance(st, ast.Assign) and len(st.targets) == 1 and \
+        isinstance(st.targets[0], ast.Tuple) and isinstance(st.value, ast.Call) and \
+        isinstance(st.value.func, ast.Attribute) and st.value.func.attr == "groups" \
+        and not st.value.args and not st.value.keywords:
+      for i, e in enumerate(st.targets[0].elts):
+        if isinstance(e, ast.Name):
+          stores = [n for n in ast.walk(init) if isinstance(n, ast.Name) and n.id == e.id
+                    and isinstance(n.ctx, (ast.Store, ast.Del))]
+          if len(stores) == 1:
+            unpacked[e.id] = i + 1
   for st in ast.walk(init):
     if isinstance(st, ast.Assign) and len(st.targets) == 1 and \
         isinstance(st.targets[0], ast.Attribute):
       for c in calls_in(st.value):
         if isinstance(c.func, ast.Attribute) and c.func.attr == "group" and c.args:
           uses[st.targets[0].attr] = (try_fold(c.args[0]), src(st.value))
+      for n in ast.walk(st.value):
+        if isinstance(n, ast.Name) and n.id in unpacked:
+          uses[st.targets[0].attr] = (unpacked[n.id], src(st.value))
   ok = {k: v[0] for k, v in uses.items()} == {"error": 1, "filename": 2, "line": 3} \
       and uses["line"][1].startswith("int(")
   ctx.check(ok, "regex:group-use", COMPILER, init.lineno,
@@ -1700,6 +1793,92 @@ _MATCH_ARGS = "    self.match_args = self._convert_str_tuple(\"__match_args__\")
 PREPROCESS = "pytype/preprocess.py"
 _SPLIT_TODAY = "    lines = src.split(\"\\n\")\n"
 
+# -- refactored shapes (behaviour-preserving, see benign/C15-r*) used by variants ----
+
+_READER_OLD = ("  first_byte = bytecode[0]\n"
+               "  if first_byte == 0:  # compile OK\n"
+               "    return bytecode[1:]\n"
+               "  elif first_byte == 1:  # compile error\n"
+               "    code = bytecode[1:]  # type: bytes\n"
+               "    raise CompileError(utils.native_str(code))\n"
+               "  else:\n"
+               "    raise OSError(\"_compile.py produced invalid result\")\n")
+
+
+def _reader_guards(valid="(0, 1)", err="status == 1"):
+  """the status decoding written as guard clauses (C15-r3)."""
+  return (COMPILER, _READER_OLD,
+          "  status = bytecode[0]\n"
+          f"  if status not in {valid}:\n"
+          "    raise OSError(\"_compile.py produced invalid result\")\n"
+          "  payload = bytecode[1:]  # type: bytes\n"
+          f"  if {err}:  # compile error\n"
+          "    raise CompileError(utils.native_str(payload))\n"
+          "  return payload  # compile OK\n")
+
+
+_INIT_OLD = ("    if match:\n"
+             "      self.error = match.group(1)\n"
+             "      self.filename = match.group(2)\n"
+             "      self.line = int(match.group(3))\n"
+             "    else:\n"
+             "      self.error = msg\n"
+             "      self.filename = None\n"
+             "      self.line = 1\n")
+
+
+def _init_groups(order="error, filename, line", line="int(line)"):
+  return (COMPILER, _INIT_OLD,
+          "    if not match:\n"
+          "      self.error = msg\n"
+          "      self.filename = None\n"
+          "      self.line = 1\n"
+          "      return\n"
+          f"    {order} = match.groups()\n"
+          "    self.error = error\n"
+          "    self.filename = filename\n"
+          f"    self.line = {line}\n")
+
+
+_DISPATCH_OLD = ("    bytecode_fn = getattr(self, f\"byte_{op.name}\", None)\n"
+                 "    if bytecode_fn is None:\n"
+                 "      raise VirtualMachineError(f\"Unknown opcode: {op.name}\")\n"
+                 "    state = bytecode_fn(state, op)\n")
+
+
+def _dispatch_helper(prefix="byte_", call="opcode_handler(state, op)"):
+  """the handler look-up moved into a method of the VM (C15-r2)."""
+  return [(VM, _DISPATCH_OLD,
+           "    opcode_handler = self._get_opcode_handler(op)\n"
+           f"    state = {call}\n"),
+          (VM, "  def _run_frame_blocks(self, frame, node, annotated_locals):\n",
+           "  def _get_opcode_handler(self, op):\n"
+           f"    opcode_handler = getattr(self, f\"{prefix}{{op.name}}\", None)\n"
+           "    if opcode_handler is None:\n"
+           "      raise VirtualMachineError(f\"Unknown opcode: {op.name}\")\n"
+           "    return opcode_handler\n\n"
+           "  def _run_frame_blocks(self, frame, node, annotated_locals):\n")]
+
+
+_FALLBACK_OLD = ("  ctx = context.Context(options, loader, src=src)\n"
+                 "  if compiler_error:\n"
+                 "    ctx.errorlog.python_compiler_error(*compiler_error)\n"
+                 "  ast = pytd_builtins.GetDefaultAst(\n"
+                 "      parser.PyiOptions.from_toplevel_options(options)\n"
+                 "  )\n"
+                 "  result = pytd_builtins.DEFAULT_SRC + other_error_info\n"
+                 "  return AnalysisResult(ctx, ast, result)\n")
+
+# the fallback result built by a module-level helper called in tail position (C15-r1)
+_FALLBACK_HELPER = [
+    (IO, _FALLBACK_OLD,
+     "  return _make_failed_analysis_result(\n"
+     "      options, loader, src, compiler_error, other_error_info\n  )\n"),
+    (IO, "def _write_pyi_output(options, contents, filename):\n",
+     "def _make_failed_analysis_result(options, loader, src, compiler_error, other_error_info):\n"
+     + _FALLBACK_OLD + "\n\ndef _write_pyi_output(options, contents, filename):\n"),
+]
+
 VARIANTS = [
     # -- R15.1
     {"name": "delete-byte_END_SEND", "rule": "R15.1", "file": VM, "expect": "fire",
@@ -1930,4 +2109,49 @@ VARIANTS = [
     {"name": "twin-cpython-line-ends-by-re-split", "rule": "R15.11", "file": PREPROCESS,
      "expect": "silent", "old": _SPLIT_TODAY,
      "new": "    lines = re.split(\"\\r\\n|\\r|\\n\", src)\n"},
+    # -- behaviour-preserving refactorings (whole patches) must stay silent
+    {"name": "twin-benign-C15-r1-io-helpers", "rule": "R15.2",
+     "patch": "benign/C15-r1/patch.diff", "expect": "silent"},
+    {"name": "twin-benign-C15-r2-run-instruction-split", "rule": "R15.8",
+     "patch": "benign/C15-r2/patch.diff", "expect": "silent"},
+    {"name": "twin-benign-C15-r3-guard-clauses", "rule": "R15.3",
+     "patch": "benign/C15-r3/patch.diff", "expect": "silent"},
+    {"name": "twin-benign-C15-r4", "rule": "R15.1",
+     "patch": "benign/C15-r4/patch.diff", "expect": "silent"},
+    # -- the same defects, seeded into the refactored shapes
+    {"name": "twin-reader-guard-clauses", "rule": "R15.3", "expect": "silent",
+     "edits": [_reader_guards()]},
+    {"name": "guard-clause-reader-arms-swapped", "rule": "R15.3", "expect": "fire",
+     "edits": [_reader_guards(err="status == 0")]},
+    {"name": "guard-clause-reader-rejects-error-status", "rule": "R15.3", "expect": "fire",
+     "edits": [_reader_guards(valid="(0, 2)", err="status == 2")]},
+    {"name": "guard-clause-reader-error-test-unreachable", "rule": "R15.3", "expect": "fire",
+     "edits": [_reader_guards(err="status == 2")]},
+    {"name": "guard-clause-reader-compares-with-bytes", "rule": "R15.3", "expect": "fire",
+     "edits": [_reader_guards(valid="(b'\\0', b'\\1')", err="status == b'\\1'")]},
+    {"name": "guard-clause-reader-tests-other-state", "rule": "R15.3", "expect": "error",
+     "edits": [_reader_guards(err="status == 1 and filename")]},
+    {"name": "twin-init-unpacks-groups", "rule": "R15.3", "expect": "silent",
+     "edits": [_init_groups()]},
+    {"name": "unpacked-groups-swapped", "rule": "R15.3", "expect": "fire",
+     "edits": [_init_groups(order="filename, error, line")]},
+    {"name": "unpacked-line-not-int", "rule": "R15.3", "expect": "fire",
+     "edits": [_init_groups(line="line")]},
+    {"name": "twin-dispatch-lookup-in-helper-method", "rule": "R15.1", "expect": "silent",
+     "edits": _dispatch_helper()},
+    {"name": "helper-method-dispatch-prefix-typo", "rule": "R15.1", "expect": "fire",
+     "edits": _dispatch_helper(prefix="bytes_")},
+    {"name": "helper-method-handler-called-without-op", "rule": "R15.8", "expect": "fire",
+     "edits": _dispatch_helper(call="opcode_handler(state)")},
+    {"name": "twin-fallback-result-in-helper", "rule": "R15.2", "expect": "silent",
+     "edits": _FALLBACK_HELPER},
+    {"name": "fallback-helper-and-compile-error-attribute-typo", "rule": "R15.2",
+     "expect": "fire",
+     "edits": _FALLBACK_HELPER + [
+         (IO, "compiler_error = (options.input, e.line, e.error)",
+          "compiler_error = (options.input, e.lineno, e.error)")]},
+    {"name": "fallback-helper-and-triple-loses-filename", "rule": "R15.2", "expect": "fire",
+     "edits": _FALLBACK_HELPER + [
+         (IO, "compiler_error = (options.input, e.lineno, e.message)",
+          "compiler_error = (e.lineno, e.message)")]},
 ]
